@@ -17,5 +17,5 @@ class Check(PropertyCheck):
     assumptions = ["E-funds, E-actors (DESIGN.md section 4.5)"]
 
     def families(self, rng, tier):
-        return [("world.swap_matrix", fam_world.swap_matrix(rng, tier)),
-                ("world.general", fam_world.general_histories(rng, tier, n_hist={"quick": 6, "thorough": 60}[tier]))]
+        return [("world.swap_matrix", fam_world.swap_matrix(rng.sub("swap_matrix"), tier)),
+                ("world.general", fam_world.general_histories(rng.sub("general_histories"), tier, n_hist={"quick": 6, "thorough": 60}[tier]))]
